@@ -89,3 +89,10 @@ check(
     "Node classifier is a stub (not a LinearClassifierMixin): the intercept_sort branches of fit_improve, gamma and p1p2 are outside the claim; sample weights not covered.",
     "DESIGN.md 3.C10",
 )
+check(
+    "C15",
+    "bounded symbolic execution (SX, z3 LRA/NRA) of the real wrapper code with recording stub models whose fitted state and outputs are symbolic functions of what they were trained on; concrete-mode replay",
+    "SkBaseTransformLearner.transform equals the chosen method's output as a 2-D array for 5 method options and 1-2 rows, and fit passes (X, y, **kw) through exactly once; SkBaseTransformStacking.transform is the column concatenation in member order for 1-3 members; TransferTransformer over copy_estimator x trainable x four inner-fit signatures x method (incl. automatic): output = the wrapped estimator's, fit never trains when not trainable, the original object is never modified with copy_estimator (also when trainable), and a second fit after the original was retrained copies its current state.",
+    "Wrapped models are stubs (affine fitted state, polynomial outputs); real scikit-learn models are outside. 1-2 rows, <= 3 members.",
+    "DESIGN.md 3.C15",
+)
